@@ -421,6 +421,40 @@ pub fn check_summary_stream(raw: &[u8], m: &SummaryM, library_lineage: bool) -> 
         }
         Some(o) => bad(format!("template has type {:?}", o)),
     }
+    // untouched content of a foreign summary survives a rewrite
+    for (id, exp) in m.extra.iter() {
+        let ok = match (ps.props.get(id), exp) {
+            (Some(PVal::Str(b)), ExtraVal::Str(orig)) => {
+                let got = crate::cp::decode(cp, b).unwrap_or_default();
+                if crate::cp::representable(cp, orig) {
+                    &got == orig
+                } else {
+                    // not representable in the current summary code page: length only
+                    got.chars().count() == orig.chars().count()
+                }
+            }
+            (Some(PVal::Str(b)), ExtraVal::Lossy(n)) => crate::cp::decode(cp, b).map(|t| t.chars().count()) == Some(*n),
+            (Some(v), ExtraVal::Other(shown)) => {
+                let got = match v {
+                    PVal::Empty => "Empty".to_string(),
+                    PVal::Null => "Null".to_string(),
+                    PVal::I1(x) => format!("I1({})", x),
+                    PVal::I2(x) => format!("I2({})", x),
+                    PVal::I4(x) => format!("I4({})", x),
+                    PVal::Time(t) => format!("Time({})", t),
+                    PVal::Str(_) => "Str".to_string(),
+                };
+                &got == shown
+            }
+            _ => false,
+        };
+        if !ok {
+            v.push((
+                "C10.propset-values".into(),
+                format!("foreign summary property {} was {:?} and is now {:?}", id, exp, ps.props.get(id)),
+            ));
+        }
+    }
     if library_lineage {
         for id in ps.props.keys() {
             if ![1u32, 2, 3, 4, 6, 7, 9, 12, 15, 18].contains(id) {
